@@ -240,7 +240,7 @@ def c05(rec):
             out.append(dict(signature=f"C05:threads-left|cause={c}",
                             msg=f"management threads still alive after exit: {alive_thr}"))
     for o in rec.ops:
-        if o["op"][0] == "submit_expect":
+        if o["op"][0] == "submit_expect" and o.get("shutdown_at_call"):
             val = o.get("value")
             if val is None or val[0] != "exc" or val[1] != "ShutdownExecutorError":
                 out.append(dict(signature=f"C05:submit-after-shutdown:{val[:2] if val else None}"
